@@ -168,10 +168,7 @@ End SegQ.
 
 (* the Biot-Savart integrand of a segment = constant vector (p2-p1) x (o-p1) times the scalar
    kernel; A = |p2-p1|^2, B = -2 (o-p1).(p2-p1), C = |o-p1|^2, 4AC - B^2 = 4 |(p2-p1) x (o-p1)|^2 *)
-Definition segA (o p1 p2 : RV3) := Rdot (Rvsub p2 p1) (Rvsub p2 p1).
-Definition segB (o p1 p2 : RV3) := - 2 * Rdot (Rvsub o p1) (Rvsub p2 p1).
-Definition segC (o p1 p2 : RV3) := Rdot (Rvsub o p1) (Rvsub o p1).
-Definition segX (o p1 p2 : RV3) := Rcross (Rvsub p2 p1) (Rvsub o p1).
+(* segA, segB, segC, segX are defined in Model/CoreSpec.v *)
 
 Lemma seg_lagrange o p1 p2 :
   4 * segA o p1 p2 * segC o p1 p2 - segB o p1 p2 * segB o p1 p2
